@@ -7,7 +7,7 @@
 import RigoProofs.C13C15TxFrame
 namespace Rigo
 
-theorem cv1_ok (sender : Account) (tx : TxIn) :
+theorem cv1_ok_iff (sender : Account) (tx : TxIn) :
     commonValidation1 sender tx = .ok () ↔
       wadd (wmul tx.price tx.gas) tx.amount ≤ sender.bal ∧ sender.nonce = tx.nonce := by
   unfold commonValidation1
@@ -107,7 +107,7 @@ theorem withdraw_run {s : St} {h : Int} {tx : TxIn} {sender : Account} {req : Na
     simp only [bind, Except.bind]
     unfold validateWithdraw
     simp [ok.amount, ok.payload, Led.get, hrw, ok.record, ok.enough, pure, Except.pure]
-  have hcv1 := (cv1_ok sender tx).mp ok.cv1
+  have hcv1 := (cv1_ok_iff sender tx).mp ok.cv1
   have hfee : wmul tx.price tx.gas ≤ sender.bal := by
     have := hcv1.1; rw [ok.amount] at this
     unfold wadd at this
